@@ -1,1 +1,100 @@
-(* placeholder *) From Klepto Require Import CacheCore.
+(* C06  Eviction follows the advertised policy (LRU / MRU / LFU / RR). *)
+From Klepto Require Import OMap CacheDict CacheDictFacts CacheCore LruFacts LfuFacts CoreInv CoreStep CoreSize CoreExn CorePolicy.
+
+(* a hit never removes anything *)
+Theorem C06_hit_removes_nothing : forall c s k fr orc v, get (smem s) k = Some v ->
+  smem (fst (call_cached c s k fr orc)) = smem s /\ snd (call_cached c s k fr orc) = ORet v 0.
+Proof. exact hit_frame. Qed.
+
+(* an insertion that does not overflow removes nothing *)
+Theorem C06_no_overflow_removes_nothing : forall c s k orc, size (smem s) <= c_max c -> purge_block c s k orc = (s, EvOk).
+Proof. exact no_overflow_frame. Qed.
+
+(* LRU: the pop-until-refcount-zero loop returns exactly the head of the recency list
+   (= the entry whose most recent use is oldest) and leaves the rest of the recency list *)
+Theorem C06_lru_loop : forall q rc, counts rc q -> q <> [] ->
+  exists v q' rc', lru_evict q rc = (Some v, q', rc') /\
+    dedup_last q = v :: dedup_last q' /\ counts rc' q' /\ occ v q' = 0.
+Proof. exact lru_evict_is_lru. Qed.
+
+Theorem C06_lru_evicts_least_recent : forall c s k orc, c_alg c = LRU -> WF c s -> queue s <> [] ->
+  exists v q', dedup_last (queue s) = v :: dedup_last q' /\
+    smem (fst (evict c s k orc)) = del (smem s) v /\ queue (fst (evict c s k orc)) = q' /\
+    snd (evict c s k orc) = EvOk.
+Proof. exact evict_lru. Qed.
+
+(* recording a use = move to the most-recent end; compaction leaves the recency list unchanged *)
+Theorem C06_lru_use : forall q k, dedup_last (q ++ [k]) = List.remove Z.eq_dec k (dedup_last q) ++ [k].
+Proof. exact dedup_last_app_single. Qed.
+
+Theorem C06_lru_compaction : forall q, dedup_last (fst (compact q)) = dedup_last q.
+Proof. exact compaction_keeps_recency. Qed.
+
+(* refinement: for every state reached by calls, one call of the real wrapper (queue + refcounts +
+   periodic compaction) is one step of the ideal LRU cache on (resident map, recency list);
+   the invariants needed are re-established, so this holds along histories of any length *)
+Theorem C06_lru_refines_ideal : forall c s k v orc, c_alg c = LRU -> archived_ c s = false -> WF c s -> tracked s ->
+  let s' := fst (call_cached c s k (Ret v) orc) in
+  abs_lru s' = ideal_lru_call (c_max c) (smem s) (dedup_last (queue s)) k v /\ tracked s' /\ WF c s'.
+Proof. exact lru_refines_ideal. Qed.
+
+(* MRU: the queue is the recency list; its last element - the entry used most recently before the
+   current call - is the one that leaves memory, and nothing else *)
+Theorem C06_mru_evicts_most_recent : forall c s k orc q' v, c_alg c = MRU -> queue s = q' ++ [v] ->
+  smem (fst (evict c s k orc)) = del (smem s) v /\ queue (fst (evict c s k orc)) = q'.
+Proof. exact evict_mru. Qed.
+
+Theorem C06_mru_use : forall c s k, c_alg c = MRU -> WF c s -> resident s k ->
+  queue (post c (hit1 (touch_hit c s k)) k) = remove_first k (queue s) ++ [k].
+Proof. exact mru_hit_moves_to_end. Qed.
+
+(* LFU: exactly the victims leave memory, and every victim's use count is <= that of every
+   entry it keeps counting; use counts count calls since the entry entered the cache *)
+Theorem C06_lfu_victims : forall c s k orc, c_alg c = LFU ->
+  let vs := lfu_victims (lfu_n (c_max c)) (usec s) in
+  (forall x, get (smem (fst (evict c s k orc))) x = if in_dec Z.eq_dec x vs then None else get (smem s) x) /\
+  (forall v nv ks ns, In (v, nv) (firstn (lfu_n (c_max c)) (sort_by_count (usec s))) ->
+                      In (ks, ns) (skipn (lfu_n (c_max c)) (sort_by_count (usec s))) -> nv <= ns) /\
+  vs = map fst (firstn (lfu_n (c_max c)) (sort_by_count (usec s))).
+Proof. exact evict_lfu. Qed.
+
+Theorem C06_lfu_counts : forall c s k, c_alg c = LFU ->
+  cnt_get (usec (touch_new c s k)) k = cnt_get (usec s) k + 1 /\
+  cnt_get (usec (touch_hit c s k)) k = cnt_get (usec s) k + 1 /\
+  (forall x, x <> k -> cnt_get (usec (touch_hit c s k)) x = cnt_get (usec s) x).
+Proof. exact lfu_counts_uses. Qed.
+
+(* RR: exactly the chosen resident entry is removed *)
+Theorem C06_rr_removes_one : forall c s k orc, c_alg c = RR -> smem (fst (evict c s k orc)) = del (smem s) orc.
+Proof. exact evict_rr. Qed.
+
+(* non-vacuity: a long LRU history (2 x 40 uses on maxsize 2 => several compactions), then a miss
+   evicts the least recently used of the two residents *)
+Example C06_witness :
+  let c := mkCfg LRU 2 false false false in
+  let hits := flat_map (fun _ => [Call (KOk 1) (Ret 11) 0; Call (KOk 2) (Ret 12) 0]) (seq 0 40) in
+  let s := run c (init_state (mkC [] ANull ANull)) (hits ++ [Call (KOk 1) (Ret 11) 0]) in
+  WF c s /\ tracked s /\ (length (queue s) <= 21)%nat /\
+  keys (smem (fst (call_cached c s 3 (Ret 13) 0))) = [1; 3].
+Proof.
+  cbv zeta. split; [|split; [|split]].
+  - apply WF_run; [apply WF_init_any; unfold wf_c, wf_arch; cbn; repeat split; constructor|].
+    apply Forall_forall. intros o Ho. apply in_app_or in Ho. destruct Ho as [Ho|[<-|[]]]; [|exact I].
+    apply in_flat_map in Ho. destruct Ho as (_ & _ & [<-|[<-|[]]]); exact I.
+  - vm_compute. intros k [<-|[<-|[]]]; auto.
+  - vm_compute. auto 30.
+  - vm_compute. reflexivity.
+Qed.
+
+Print Assumptions C06_hit_removes_nothing.
+Print Assumptions C06_no_overflow_removes_nothing.
+Print Assumptions C06_lru_loop.
+Print Assumptions C06_lru_evicts_least_recent.
+Print Assumptions C06_lru_use.
+Print Assumptions C06_lru_compaction.
+Print Assumptions C06_lru_refines_ideal.
+Print Assumptions C06_mru_evicts_most_recent.
+Print Assumptions C06_mru_use.
+Print Assumptions C06_lfu_victims.
+Print Assumptions C06_lfu_counts.
+Print Assumptions C06_rr_removes_one.
